@@ -1722,12 +1722,6 @@ Example ex_not_looped_installed : exists a, rx_reach (ex_ctx Ibgp 0) 16777217 (S
 Proof. eexists. vm_compute. reflexivity. Qed.
 
 (* ================================================================ the LLGR period begins: the neighbour's view *)
-Definition touches (d pid : N) (op : sinkop) : bool :=
-  match op with
-  | Unreach d' p' => (d' =? d) && (p' =? pid)
-  | Reach d' p' _ _ _ => (d' =? d) && (p' =? pid)
-  end.
-
 Lemma view_after_app : forall o1 o2 d pid v,
   view_after (o1 ++ o2) d pid v = view_after o2 d pid (view_after o1 d pid v).
 Proof.
@@ -2053,4 +2047,124 @@ Corollary encode_path_injective : forall p q, wf_path p -> wf_path q -> encode_p
 Proof.
   intros p q Hp Hq E. pose proof (parse_encode_path p Hp) as H1. pose proof (parse_encode_path q Hq) as H2.
   rewrite E in H1. congruence.
+Qed.
+
+(* ================================================================ LLGR refresh, any change and any export map *)
+Lemma mem_In : forall x l, mem x l = true <-> In x l.
+Proof.
+  intros x. induction l as [|y l IH]; cbn [mem In]; [split; [discriminate | tauto]|].
+  rewrite orb_true_iff, IH, N.eqb_eq. split; intros [H|H]; auto.
+Qed.
+
+Lemma In_insert_sorted : forall x y l, In x (insert_sorted y l) <-> x = y \/ In x l.
+Proof.
+  intros x y. induction l as [|z l IH]; cbn [insert_sorted]; [cbn; intuition|].
+  destruct (y <=? z); cbn [In]; [intuition|]. rewrite IH. intuition.
+Qed.
+
+Lemma In_sort_n : forall x l, In x (sort_n l) <-> In x l.
+Proof.
+  intros x. induction l as [|y l IH]; [reflexivity|].
+  unfold sort_n in *. cbn [fold_right]. rewrite In_insert_sorted, IH. cbn [In]. intuition.
+Qed.
+
+Lemma addpath_reaches_emits : forall x d rep top e r pid a nh s,
+  addpath_reaches true x d rep e top = Ok r ->
+  In (pid, a, nh, s) top -> src_llgr s = true ->
+  exists out, In (Reach d pid nh out s) (fst r).
+Proof.
+  intros x d rep. induction top as [|[[[pid0 a0] nh0] s0] t IH]; intros e r pid a nh s H Hin Hl; [contradiction|].
+  cbn [addpath_reaches] in H. destruct Hin as [Hin|Hin].
+  - inversion Hin; subst. rewrite Hl in H. cbn [andb] in H. rewrite orb_true_r in H.
+    destruct (export_attrs x a) as [a'|]; [|discriminate]. cbn [rbind] in H.
+    destruct (addpath_reaches true x d rep (em_mark_sent e d pid) t) as [r'|]; [|discriminate].
+    cbn [rbind] in H. inversion H; subst. exists a'. left. reflexivity.
+  - destruct (negb (em_contains_path e d pid0) || match rep with Some r0 => r0 =? pid0 | None => false end
+              || (true && src_llgr s0)).
+    + destruct (export_attrs x a0) as [a'|]; [|discriminate]. cbn [rbind] in H.
+      destruct (addpath_reaches true x d rep (em_mark_sent e d pid0) t) as [r'|] eqn:Er; [|discriminate].
+      cbn [rbind] in H. inversion H; subst. destruct (IH _ _ _ _ _ _ Er Hin Hl) as [out Hout].
+      exists out. right. exact Hout.
+    + exact (IH _ _ _ _ _ _ H Hin Hl).
+Qed.
+
+(* After the fix: a change with any_changed for a destination whose paths are all
+   LLGR-stale touches everything the neighbour holds for that destination: what
+   was advertised is re-advertised or withdrawn. *)
+Theorem C09_llgr_refresh_best_only : forall x pol raddr cid c e r,
+  process_change x pol 1 raddr cid c e = Ok r ->
+  c_any_changed c = true -> c_paths c <> [] ->
+  (forall p, In p (c_paths c) -> src_llgr (p_src p) = true) ->
+  em_was_sent e (c_dest c) = true ->
+  exists op, In op (fst r) /\ touches (c_dest c) 0 op = true.
+Proof.
+  intros x pol raddr cid c e r H Hany Hne Hst Hsent.
+  unfold process_change, process_change_v in H. cbn [N.eqb Pos.eqb] in H.
+  destruct (c_paths c) as [|best rest] eqn:Ep; [contradiction|].
+  rewrite Hany, (Hst best (or_introl eq_refl)) in H. cbn [andb negb] in H. rewrite andb_false_r in H.
+  assert (Ht : forall nh a s, touches (c_dest c) 0 (Reach (c_dest c) 0 nh a s) = true)
+    by (intros; cbn [touches]; rewrite !N.eqb_refl; reflexivity).
+  assert (Hu : touches (c_dest c) 0 (Unreach (c_dest c) 0) = true)
+    by (cbn [touches]; rewrite !N.eqb_refl; reflexivity).
+  rewrite Hsent in H.
+  destruct (visible x raddr cid best).
+  - destruct (policy_stage x pol cid (c_family c) best) as [[a nh]|].
+    + destruct (export_attrs x (llgr_stage best a)) as [a'|]; cbn [rbind] in H; [|discriminate].
+      inversion H; subst. eexists. split; [left; reflexivity | apply Ht].
+    + inversion H; subst. eexists. split; [left; reflexivity | apply Hu].
+  - inversion H; subst. eexists. split; [left; reflexivity | apply Hu].
+Qed.
+
+Theorem C09_llgr_refresh_addpath : forall x pol emax raddr cid c e r pid,
+  emax <> 1 -> process_change x pol emax raddr cid c e = Ok r ->
+  c_any_changed c = true ->
+  (forall p, In p (c_paths c) -> src_llgr (p_src p) = true) ->
+  was_sent_path e (c_dest c) pid ->
+  exists op, In op (fst r) /\ touches (c_dest c) pid op = true.
+Proof.
+  intros x pol emax raddr cid c e r pid Hem H Hany Hst Hsent.
+  unfold process_change, process_change_v in H. apply N.eqb_neq in Hem. rewrite Hem, Hany in H. cbn [negb] in H.
+  match type of H with rbind (addpath_reaches _ _ _ _ _ ?top) _ = _ => set (TOP := top) in * end.
+  match type of H with rbind (addpath_reaches _ _ _ _ ?e1 _) _ = _ =>
+    destruct (addpath_reaches true x (c_dest c) (c_replaced c) e1 TOP) as [r'|] eqn:Er; [|cbn [rbind] in H; discriminate] end.
+  cbn [rbind] in H. inversion H; subst r. clear H. cbn [fst].
+  destruct (mem pid (map (fun t : N * list attr * option nexthop * source => fst (fst (fst t))) TOP)) eqn:Ecur.
+  - (* still in the top-N: re-advertised *)
+    apply mem_In in Ecur. apply in_map_iff in Ecur. destruct Ecur as ([[[pid' a] nh] s] & Hp & Hin). cbn [fst] in Hp. subst pid'.
+    assert (Hl : src_llgr s = true).
+    { unfold TOP in Hin. apply in_flat_map in Hin. destruct Hin as (p & Hp & Hin).
+      destruct (policy_stage x pol cid (c_family c) p) as [[a1 nh1]|]; [|contradiction].
+      destruct Hin as [Hin|[]]. inversion Hin; subst. apply Hst.
+      apply In_firstn in Hp. apply filter_In in Hp. tauto. }
+    destruct (addpath_reaches_emits _ _ _ _ _ _ _ _ _ _ Er Hin Hl) as [out Hout].
+    exists (Reach (c_dest c) pid nh out s). split; [apply in_or_app; right; exact Hout|].
+    cbn [touches]. rewrite !N.eqb_refl. reflexivity.
+  - (* no longer there: withdrawn *)
+    exists (Unreach (c_dest c) pid). split; [|cbn [touches]; rewrite !N.eqb_refl; reflexivity].
+    apply in_or_app. left. apply in_map_iff. exists pid. split; [reflexivity|].
+    apply In_sort_n. apply filter_In. split; [exact Hsent|]. rewrite Ecur. reflexivity.
+Qed.
+
+(* ... hence the copy a neighbour holds afterwards carries LLGR_STALE *)
+Theorem C09_llgr_view_refreshed : forall x pol emax raddr cid c e r pid v0 v,
+  policy_keeps_decodable pol ->
+  (forall p, In p (c_paths c) -> decodable (p_attrs p) /\ src_llgr (p_src p) = true) ->
+  c_any_changed c = true ->
+  (if emax =? 1 then pid = 0 /\ c_paths c <> [] /\ em_was_sent e (c_dest c) = true
+   else was_sent_path e (c_dest c) pid) ->
+  process_change x pol emax raddr cid c e = Ok r ->
+  view_after (fst r) (c_dest c) pid v0 = Some v -> carries_llgr_stale v.
+Proof.
+  intros x pol emax raddr cid c e r pid v0 v Hk Hp Hany Hsent H Hview.
+  destruct (view_after_cases _ _ _ _ _ Hview) as [(nh & s & Hin) | (_ & Hnot)].
+  - destruct (reach_origin _ _ _ _ _ _ _ _ _ _ _ _ _ _ H Hin) as (p & a & Hpin & _ & Hs & _).
+    eapply (C09_llgr_stale_marked true); [exact Hk | intros q Hq; apply Hp; exact Hq | exact H | exact Hin |].
+    subst s. apply Hp. exact Hpin.
+  - exfalso. destruct (emax =? 1) eqn:Em.
+    + apply N.eqb_eq in Em. subst emax. destruct Hsent as (Hpid & Hne & Hws). subst pid.
+      destruct (C09_llgr_refresh_best_only x pol raddr cid c e r H Hany Hne (fun p Hq => proj2 (Hp p Hq)) Hws) as (op & Hop & Ht).
+      rewrite (Hnot op Hop) in Ht. discriminate.
+    + apply N.eqb_neq in Em.
+      destruct (C09_llgr_refresh_addpath x pol emax raddr cid c e r pid Em H Hany (fun p Hq => proj2 (Hp p Hq)) Hsent) as (op & Hop & Ht).
+      rewrite (Hnot op Hop) in Ht. discriminate.
 Qed.
